@@ -391,7 +391,7 @@ def run(rep):
     rnd = random.Random(rep.seed)
     len_a, len_b = (5, 3) if thorough else (4, 2)
     rep.rule = ("part 1: DsStore.tla explores every history of Save/Load/LoadNew(create_new)/SaveMerge/HarvFresh/HarvSame/Delete of length "
-                "%d (overwrite=None; quick tier: one less except for name 'data' with joblib) and %d (all three policies) "
+                "%d (overwrite=None; one less for the names that carry an extension; quick tier: also for 'data' with h5netcdf) and %d (all three policies) "
                 "for name in {data, data.h5, data.dmp} x engine in "
                 "{h5netcdf, joblib}; a history is non-trivial when it contains a merge or delete after a save; part 2: "
                 "every (ndim 0-4, variable dtype, coordinate dtype, NaN pattern, attribute set, chunks) configuration; "
@@ -415,7 +415,7 @@ def run(rep):
         for ext, eng in combos:
             # quick tier: the longest histories only for the extension-less name (where the sites can
             # disagree) with the cheap engine
-            la = len_a if (thorough or (ext == "" and eng == "joblib")) else len_a - 1
+            la = len_a if (ext == "" and (thorough or eng == "joblib")) else len_a - 1
             jobs[("A", ext, eng)] = ex.submit(run_naming, ext, eng, la, ("none",), emit=True, tag="A", workers=1, coverage=True)
             jobs[("B", ext, eng)] = ex.submit(run_naming, ext, eng, len_b, ("none", "true", "false"), emit=True, tag="B", workers=1, coverage=True)
             jobs[("rt", ext, eng)] = ex.submit(run_rt, ext, eng, emit=True, workers=1, coverage=True)
